@@ -180,4 +180,24 @@ theorem numcast_f64_nan : numCastFrom (ToPrim.ofF64 .nan) = some ⟨.nan, fin fa
 theorem numcast_f64_inf (s : Bool) : numCastFrom (ToPrim.ofF64 (.inf s)) = some ⟨.inf s, fin false 0⟩ := by
   cases s <;> decide +kernel
 
+/-! ### the `FromPrimitive` float routes (added by fix cc2a072: the provided defaults of num_traits truncated the value to an
+integer through `to_i64` / `to_u64`) -/
+
+/-- `<TwoFloat as FromPrimitive>::from_f64(x)` is `Some(TwoFloat::from(x))` = `(x, +0)` -/
+theorem from_primitive_f64 (x : F64) :
+    num_integration.impl_FromPrimitive_for_TwoFloat.from_f64 x = some ⟨x, fin false 0⟩ := by
+  unfold num_integration.impl_FromPrimitive_for_TwoFloat.from_f64; rw [C09.from_f64]
+
+/-- `<TwoFloat as FromPrimitive>::from_f32(x)` is `Some(TwoFloat::from(x))` = `(x as f64, +0)` -/
+theorem from_primitive_f32 (x : F32) :
+    num_integration.impl_FromPrimitive_for_TwoFloat.from_f32 x = some ⟨x.v, fin false 0⟩ := by
+  unfold num_integration.impl_FromPrimitive_for_TwoFloat.from_f32; rw [C09.from_f32]
+
+/-- … hence exact and valid for every finite argument -/
+theorem from_primitive_f64_exact (x : F64) (hf : x.is_finite = true) (hw : x.WF) :
+    ∃ t, num_integration.impl_FromPrimitive_for_TwoFloat.from_f64 x = some t ∧ t.V = x.toInt ∧ t.Valid := by
+  refine ⟨_, rfl, ?_⟩
+  have h := C09.from_f64_exact x hf hw
+  exact ⟨h.1, h.2.1⟩
+
 end C09n
